@@ -84,6 +84,9 @@ class BuildError(Exception):
     pass
 
 
+_hang_seen = []
+
+
 def run_harness(cases, profile="release", features=(), env_extra=None, timeout=3000):
     """cases: list of dict(ctx, op, args). Returns list of outputs aligned with cases."""
     binary = build_harness(profile, features)
@@ -93,21 +96,36 @@ def run_harness(cases, profile="release", features=(), env_extra=None, timeout=3
     env = dict(os.environ)
     if env_extra:
         env.update(env_extra)
-    p = subprocess.run([binary], input="\n".join(lines) + "\n", stdout=subprocess.PIPE,
-                       stderr=subprocess.PIPE, text=True, timeout=timeout, env=env)
+    # a library call that never returns must not stall the check: the harness answers case by case (flushed), so after
+    # the time limit the first unanswered case is reported as "hang" and the rest as "not_run"
+    # (generous: 15 min or 1 s per case; once one call has hung, later calls of the same run get 2 min)
+    limit = float(os.environ.get("VERIF_HARNESS_TIMEOUT", "0")) or (120.0 if _hang_seen else min(timeout, max(900.0, 1.0 * len(cases))))
+    hung = False
+    with subprocess.Popen([binary], stdin=subprocess.PIPE, stdout=subprocess.PIPE, stderr=subprocess.PIPE, text=True, env=env) as proc:
+        try:
+            so, se = proc.communicate("\n".join(lines) + "\n", timeout=limit)
+        except subprocess.TimeoutExpired:
+            proc.kill()
+            so, se = proc.communicate()
+            hung = True
+            _hang_seen.append(True)
+        rc_ = proc.returncode
     outs = [None] * len(cases)
-    for line in p.stdout.splitlines():
+    for line in so.splitlines():
         line = line.strip()
         if not line:
             continue
-        v = json.loads(line)
+        try:
+            v = json.loads(line)
+        except ValueError:
+            continue            # a line cut short by the kill
         outs[v["id"]] = v["out"]
-    if p.returncode != 0 or any(o is None for o in outs):
-        # the process died (abort / stack overflow / OOM): report the first unanswered case
+    if rc_ != 0 or hung or any(o is None for o in outs):
+        # the process died (abort / stack overflow / OOM) or was killed after the time limit: name the first unanswered case
         first = next((i for i, o in enumerate(outs) if o is None), None)
         for i, o in enumerate(outs):
             if o is None:
-                outs[i] = "abort" if i == first else "not_run"
+                outs[i] = ("hang" if hung else "abort") if i == first else "not_run"
     return outs
 
 
@@ -128,7 +146,7 @@ def coq_val(v):
             return "VErr"
         if v == "panic":
             return "VPanic"
-        if v in ("abort", "not_run"):
+        if v in ("abort", "not_run", "hang"):
             return "VBad"
         if re.fullmatch(r"-?\d+", v):
             return "(VZ %s)" % v if not v.startswith("-") else "(VZ (%s))" % v
